@@ -194,7 +194,12 @@ class BodyPart:
         #   Each part MAY have an (optional) "Content-Type" header field, which
         #   defaults to "text/plain".
         value = self._headers.get(b'content-type', b'text/plain')
-        return value.decode('ascii')
+        try:
+            return value.decode('ascii')
+        except UnicodeDecodeError as err:
+            raise MultipartParseError(
+                description='invalid Content-Type header encoding'
+            ) from err
 
     @property
     def filename(self) -> Optional[str]:
@@ -202,7 +207,12 @@ class BodyPart:
         if self._filename is _UNSET:
             if self._content_disposition is None:
                 value = self._headers.get(b'content-disposition', b'')
-                self._content_disposition = parse_header(value.decode())
+                try:
+                    self._content_disposition = parse_header(value.decode())
+                except UnicodeDecodeError as err:
+                    raise MultipartParseError(
+                        description='invalid Content-Disposition header encoding'
+                    ) from err
 
             _, params = self._content_disposition
 
@@ -257,7 +267,12 @@ class BodyPart:
         if self._name is _UNSET:
             if self._content_disposition is None:
                 value = self._headers.get(b'content-disposition', b'')
-                self._content_disposition = parse_header(value.decode())
+                try:
+                    self._content_disposition = parse_header(value.decode())
+                except UnicodeDecodeError as err:
+                    raise MultipartParseError(
+                        description='invalid Content-Disposition header encoding'
+                    ) from err
 
             _, params = self._content_disposition
             self._name = params.get('name')
